@@ -86,6 +86,26 @@ theorem range_respected (s : State) (h : Nat) (incoming locals : List (Nat × Na
       rw [← hk, ← ht, ← hh]
       exact horigin x ((pTbf_sub _).subset hx)
 
+/-- The clause at full strength — "records taken from periodic MULTI-RECORD advertisements must also lie within its
+responsible distance": whatever the number of NEW keys in it, an advertisement of two or more records queues or
+schedules only keys that were already queued or lie within the range. -/
+def RangeRespectedMultiAdvert : Prop :=
+  ∀ (dist : Nat → Nat) (s : State) (h : Nat) (incoming locals : List (Nat × Nat)) (choice : List Entry) (r : Nat),
+    s.range = some r → 2 ≤ incoming.length →
+    (addKeys dist s h incoming locals choice).2.illegal = false →
+    ∀ e, e ∈ (addKeys dist s h incoming locals choice).1.tbf ∨ e ∈ (addKeys dist s h incoming locals choice).2.ret →
+      hasKTH s.tbf e.key e.ty e.holder = true ∨ dist e.key ≤ r
+
+/-- It is false of the code (known finding K-x-single-new-skips-range): the fast path is taken when exactly one key of
+the list is NEW — the steady state of periodic replication, a list with one record the node lacks — and skips the range
+test. Range 5, keys 1 and 2 held, the list [1, 2, 50]: key 50 at distance 50 is fetched at once, and the choice is legal. -/
+theorem single_new_key_of_multi_advert_skips_range_witness : ¬ RangeRespectedMultiAdvert := by
+  intro hall
+  have h := hall (fun k => k) ({ range := some 5 } : State) 7 [(1, 0), (2, 0), (50, 0)] [(1, 0), (2, 0)]
+    [⟨50, 0, 7, fetchTimeout⟩] 5 rfl (by decide) (by decide) ⟨50, 0, 7, fetchTimeout⟩ (Or.inr (by decide))
+  revert h
+  decide
+
 /-! ## full_respected -/
 
 /-- Once `set_farthest_on_full` has fixed a farthest acceptable distance, nothing farther is queued or in flight,
@@ -1109,6 +1129,7 @@ example : Reachable (fun k => k) (run (fun k => k) State.init [.age 3]) := ⟨[.
 #print axioms SafeNet.Props.C08.scheduled_not_held
 #print axioms SafeNet.Props.C08.scheduled_not_held_after_put
 #print axioms SafeNet.Props.C08.range_respected
+#print axioms SafeNet.Props.C08.single_new_key_of_multi_advert_skips_range_witness
 #print axioms SafeNet.Props.C08.full_respected
 #print axioms SafeNet.Props.C08.full_bound_shrinks
 #print axioms SafeNet.Props.C08.inflight_exact
